@@ -134,10 +134,13 @@ Definition parse_ipv4 (s : bytes) : option Z :=
   | _ => None
   end.
 
-Inductive ippat := IPEq (a : Z) | IPRange (lo hi : Z) | IPPrefix (a : Z) (bits : Z).
+Inductive ippat := IPEq (a : Z) | IPRange (lo hi : Z) | IPPrefix (a : Z) (bits : Z)
+  | IPOut.      (* an IPv6 pattern: outside the modelled fragment (the evaluation is then judged on the observed results only) *)
 Definition ip_match (p : ippat) (a : Z) : bool :=
   match p with
   | IPEq x => a =? x
   | IPRange lo hi => (lo <=? a) && (a <=? hi)
   | IPPrefix x bits => (a / 2 ^ (32 - bits)) =? (x / 2 ^ (32 - bits))
+  | IPOut => false
   end.
+Definition ip_out (p : ippat) : bool := match p with IPOut => true | _ => false end.
